@@ -198,6 +198,10 @@ impl Pager {
     pub fn open(path: impl AsRef<Path>) -> Result<Self> {
         let path = path.as_ref().to_path_buf();
         let existed = path.exists();
+        #[cfg(nervusdb_verif)]
+        if !existed {
+            crate::verif::io_path("pager.open.create", crate::verif::IoOp::Create, &path, None)?;
+        }
         let file = OpenOptions::new()
             .read(true)
             .write(true)
@@ -208,6 +212,14 @@ impl Pager {
         if !existed || file.metadata()?.len() == 0 {
             let meta = Meta::new();
             let bitmap = Bitmap::new();
+            #[cfg(nervusdb_verif)]
+            crate::verif::io_file(
+                "pager.init.set_len",
+                crate::verif::IoOp::SetLen,
+                &file,
+                (PAGE_SIZE * 2) as u64,
+                &[],
+            )?;
             file.set_len((PAGE_SIZE * 2) as u64)?;
 
             let mut pager = Self {
@@ -275,12 +287,27 @@ impl Pager {
             }
         }
 
+        #[cfg(nervusdb_verif)]
+        crate::verif::io_path(
+            "pager.vacuum.create",
+            crate::verif::IoOp::Create,
+            target_path,
+            None,
+        )?;
         let out = OpenOptions::new()
             .write(true)
             .create_new(true)
             .truncate(false)
             .open(target_path)?;
 
+        #[cfg(nervusdb_verif)]
+        crate::verif::io_file(
+            "pager.vacuum.set_len",
+            crate::verif::IoOp::SetLen,
+            &out,
+            new_next_page_id.saturating_mul(PAGE_SIZE as u64),
+            &[],
+        )?;
         out.set_len(new_next_page_id.saturating_mul(PAGE_SIZE as u64))?;
 
         let meta_page = meta.encode_page();
@@ -295,6 +322,8 @@ impl Pager {
             write_page_raw(&out, *p, &page)?;
         }
 
+        #[cfg(nervusdb_verif)]
+        crate::verif::io_file("pager.vacuum.sync", crate::verif::IoOp::Sync, &out, 0, &[])?;
         out.sync_data()?;
 
         Ok(VacuumCopyStats {
@@ -375,7 +404,10 @@ impl Pager {
         Ok(id)
     }
 
+    #[cfg_attr(nervusdb_verif, track_caller)]
     pub fn allocate_page(&mut self) -> Result<PageId> {
+        #[cfg(nervusdb_verif)]
+        let verif_caller = std::panic::Location::caller();
         let max_pages = BITMAP_BITS;
         let candidate = self
             .bitmap
@@ -391,10 +423,19 @@ impl Pager {
         }
 
         self.ensure_allocated(PageId::new(candidate))?;
+        #[cfg(nervusdb_verif)]
+        crate::verif::page(crate::verif::PageOp::Allocate, candidate, verif_caller);
         Ok(PageId::new(candidate))
     }
 
+    #[cfg_attr(nervusdb_verif, track_caller)]
     pub fn free_page(&mut self, page_id: PageId) -> Result<()> {
+        #[cfg(nervusdb_verif)]
+        crate::verif::page(
+            crate::verif::PageOp::Free,
+            page_id.as_u64(),
+            std::panic::Location::caller(),
+        );
         self.validate_data_page_id(page_id)?;
         if !self.bitmap.is_allocated(page_id) {
             return Err(Error::PageNotAllocated(page_id.as_u64()));
@@ -416,7 +457,14 @@ impl Pager {
         Ok(page)
     }
 
+    #[cfg_attr(nervusdb_verif, track_caller)]
     pub fn write_page(&mut self, page_id: PageId, page: &[u8; PAGE_SIZE]) -> Result<()> {
+        #[cfg(nervusdb_verif)]
+        crate::verif::page(
+            crate::verif::PageOp::Write,
+            page_id.as_u64(),
+            std::panic::Location::caller(),
+        );
         self.validate_data_page_id(page_id)?;
         if !self.bitmap.is_allocated(page_id) {
             return Err(Error::PageNotAllocated(page_id.as_u64()));
@@ -427,11 +475,20 @@ impl Pager {
     }
 
     pub fn sync(&mut self) -> Result<()> {
+        #[cfg(nervusdb_verif)]
+        crate::verif::io_file("pager.sync", crate::verif::IoOp::Sync, &self.file, 0, &[])?;
         self.file.sync_data()?;
         Ok(())
     }
 
+    #[cfg_attr(nervusdb_verif, track_caller)]
     pub(crate) fn ensure_allocated(&mut self, page_id: PageId) -> Result<()> {
+        #[cfg(nervusdb_verif)]
+        crate::verif::page(
+            crate::verif::PageOp::EnsureAllocated,
+            page_id.as_u64(),
+            std::panic::Location::caller(),
+        );
         self.validate_data_page_id(page_id)?;
 
         if page_id.as_u64() >= self.meta.next_page_id {
@@ -445,6 +502,14 @@ impl Pager {
         let required_bytes = (page_id.as_u64() + 1) * PAGE_SIZE as u64;
         let current_len = self.file.metadata()?.len();
         if current_len < required_bytes {
+            #[cfg(nervusdb_verif)]
+            crate::verif::io_file(
+                "pager.grow.set_len",
+                crate::verif::IoOp::SetLen,
+                &self.file,
+                required_bytes,
+                &[],
+            )?;
             self.file.set_len(required_bytes)?;
         }
 
@@ -464,6 +529,14 @@ impl Pager {
         write_page_raw(&self.file, BITMAP_PAGE_ID, &self.bitmap.data)?;
         // Ensure meta + bitmap durability. WAL replay can recover data pages, but
         // durable metadata reduces recovery work and avoids pathological re-scan.
+        #[cfg(nervusdb_verif)]
+        crate::verif::io_file(
+            "pager.meta.sync",
+            crate::verif::IoOp::Sync,
+            &self.file,
+            0,
+            &[],
+        )?;
         self.file.sync_data()?;
         Ok(())
     }
@@ -477,6 +550,15 @@ fn read_page_raw(file: &File, page_id: PageId, buf: &mut [u8; PAGE_SIZE]) -> Res
 
 fn write_page_raw(file: &File, page_id: PageId, buf: &[u8; PAGE_SIZE]) -> Result<()> {
     let offset = page_id.as_u64() * PAGE_SIZE as u64;
+    #[cfg(nervusdb_verif)]
+    crate::verif::io_file(
+        "pager.write_page",
+        crate::verif::IoOp::WriteAt,
+        file,
+        offset,
+        buf,
+    )
+    .map_err(Error::Io)?;
     write_all_at(file, offset, buf).map_err(Error::Io)?;
     Ok(())
 }
